@@ -58,6 +58,7 @@ def step (st : St) (line : String) : St × String :=
          nextW := 0 }, "ok")
     | _, _, _ => (st, "bad-op")
   | "stress" :: _, _ => (st, "round ok")
+  | ["cancelprobe", _], _ => (st, "probe done")
   | ["wake"], some s => wakeCall st s .main
   | ["twake", t], some s =>
     match t.toNat? with
